@@ -2,7 +2,7 @@
 From Coq Require Import NArith List Bool.
 Import ListNotations.
 From DV Require Import Base.Outcome Base.Bytes Base.Lex Base.Names.
-From DV Require Import C17.Model C18.Model C14.Gen C14.Model C14.Proofs C14.ProofsDenial C14.ProofsSig C14.ProofsL2H.
+From DV Require Import C17.Model C17.Proofs C18.Model C14.Gen C14.Model C14.Proofs C14.ProofsDenial C14.ProofsSig C14.ProofsL2H.
 Local Open Scope N_scope.
 
 Theorem C14_nsec_in_range_spec : forall t o n,
@@ -103,38 +103,39 @@ Theorem C14_label_to_hash_only_panic : forall l p, nsec3_label_to_hash l = Panic
 Proof. exact label_to_hash_only_panic. Qed.
 Print Assumptions C14_label_to_hash_only_panic.
 
-Theorem C14_sig_time_ok_spec : sig_time_is_canonical = true -> forall now inc exp,
-  sig_time_ok now inc exp = true <-> inc <= now <= exp.
+Theorem C14_sig_time_ok_spec : sig_time_is_canonical = false -> forall now inc exp,
+  u32 now -> u32 inc -> u32 exp ->
+  (sig_time_ok now inc exp = true <-> (rfc_lt now exp \/ now = exp) /\ (rfc_gt now inc \/ now = inc)).
 Proof. exact sig_time_ok_spec. Qed.
 Print Assumptions C14_sig_time_ok_spec.
 
-Theorem C14_sig_time_is_rfc1982_in_window : sig_time_is_canonical = true -> forall now inc exp,
-  now < 4294967296 -> inc < 4294967296 -> exp < 4294967296 ->
-  (now <= exp -> exp - now < 2147483648) -> (exp <= now -> now - exp < 2147483648) ->
-  (now <= inc -> inc - now < 2147483648) -> (inc <= now -> now - inc < 2147483648) ->
-  (sig_time_ok now inc exp = true <-> ~ rfc_gt now exp /\ ~ rfc_lt now inc).
-Proof. exact sig_time_is_rfc1982_in_window. Qed.
-Print Assumptions C14_sig_time_is_rfc1982_in_window.
+Theorem C14_sig_time_shift_invariant : sig_time_is_canonical = false -> forall now inc exp k,
+  u32 now -> u32 inc -> u32 exp ->
+  sig_time_ok ((now + k) mod M32) ((inc + k) mod M32) ((exp + k) mod M32) = sig_time_ok now inc exp.
+Proof. exact sig_time_shift_invariant. Qed.
+Print Assumptions C14_sig_time_shift_invariant.
 
-Theorem C14_sig_time_rfc1982_refuted : sig_time_is_canonical = true ->
-  exists now inc exp, now < 4294967296 /\ inc < 4294967296 /\ exp < 4294967296 /\
-    sig_time_ok now inc exp = true /\ rfc_gt now exp.
-Proof. exact sig_time_rfc1982_refuted. Qed.
-Print Assumptions C14_sig_time_rfc1982_refuted.
+Theorem C14_sig_time_rejects : sig_time_is_canonical = false -> forall now inc exp,
+  u32 now -> u32 inc -> u32 exp ->
+  rfc_gt now exp \/ rfc_lt now inc \/ (now + 2147483648) mod M32 = exp \/ (now + 2147483648) mod M32 = inc ->
+  sig_time_ok now inc exp = false.
+Proof. exact sig_time_rejects. Qed.
+Print Assumptions C14_sig_time_rejects.
 
-Theorem C14_check_sig_sound : sig_time_is_canonical = true -> forall s, check_sig s = true ->
+Theorem C14_check_sig_sound : forall s, check_sig s = true ->
   name_eqb (s_sig_owner s) (s_owner s) = true /\ s_same_class s = true /\
   ends_with (s_owner s) (s_signer s) = true /\
   s_type_covered s = s_rtype s /\
   s_sig_labels s <= N.of_nat (length (s_owner s)) /\
-  s_inception s <= s_now s <= s_expiration s /\
+  sig_time_ok (s_now s) (s_inception s) (s_expiration s) = true /\
   name_eqb (s_signer s) (s_key_name s) = true /\ s_sig_alg s = s_key_alg s /\ s_sig_tag s = s_key_tag s /\
   s_zone_key s = true /\ s_crypto_ok s = true.
 Proof. exact check_sig_sound. Qed.
 Print Assumptions C14_check_sig_sound.
 
-Theorem C14_check_sig_rejects_outside_validity : sig_time_is_canonical = true -> forall s,
-  s_expiration s < s_now s \/ s_now s < s_inception s -> check_sig s = false.
+Theorem C14_check_sig_rejects_outside_validity : sig_time_is_canonical = false -> forall s,
+  u32 (s_now s) -> u32 (s_inception s) -> u32 (s_expiration s) ->
+  rfc_gt (s_now s) (s_expiration s) \/ rfc_lt (s_now s) (s_inception s) -> check_sig s = false.
 Proof. exact check_sig_rejects_outside_validity. Qed.
 Print Assumptions C14_check_sig_rejects_outside_validity.
 
